@@ -10,9 +10,22 @@ check("C16", "exploration",
       "number of earlier compilations each time), 3x in separate processes with different HOME/LANG/TZ/RUST_BACKTRACE/cwd/thread count - and records "
       "the digest of the Lua bytes or of the complete rendered error list; TLC (Trace_Determinism) re-derives each case from its index, replays the "
       "runs as Run actions with the spec invariants evaluated in every state, and rejects every input whose runs disagree. quick: 40 cases per "
-      "family (600) + the 344 corpus files of /repo/tests; thorough: the whole universe + corpus. Hash seeds are sampled by repetition, not enumerated.",
+      "family (600) + the 344 corpus files of /repo/tests; thorough: the whole universe + corpus. Hash seeds are sampled by repetition, not enumerated. "
+      "The CONTEXT of a run is a second specification, SyltDetContext: state ph = the history of the compiling process, action RunFrom(history, input, "
+      "configuration, result), invariants HistoryIndependence (result(P after any history) = result(P fresh)) and SpellingIndependence; TLC proves them for "
+      "a function-of-input implementation and must find the violation for a cache-, a counter- and a spelling-dependent one. Four more universes are defined "
+      "there and validated by Trace_DetContext, which re-derives every recorded context: hist - a library of 34 programs (1-3 files, 0-4 std imports, globals "
+      "named like preamble imports, syntax/resolution/type/import errors inside ( ) [ ] { } at depth 0-6, with and without std), each fresh in its own process, "
+      "P,P,P, after each of 11 warm-up programs W, after W,W' and as W,P,W',P (1190 processes); long - 6 histories of 400/2500 (thorough 1200/6000) "
+      "compilations in one thread mixing accepted and rejected programs; path - 64 projects on disk (one module imported both relative and rooted, sub-folders, "
+      "exports.sy, 3 error kinds) x 10 spellings of the main file and working directories (bare name, ./, .., absolute, //), one process each through sylt's own "
+      "file reader, errors compared with file names normalised; seed - 1008 declarations with a member written 2-3 times (blob fields, enum variants, imports, "
+      "parameters, case arms, literal fields, globals), 256 (thorough 512) fresh hash keys each (quick: 126 inputs).",
       "Trusted: TLC, the SyltDeterminism module, the recorder c16 (FNV-64 digests stand for the bytes; rendering of the cases from the case fields). "
-      "An order dependence that shows with probability p per run escapes an input with probability about (1-p)^8. In-memory projects are not on disk, "
-      "so the rendered error text never contains source excerpts. Negative controls: free-environment spec model; recorder that salts one run.",
-      "TLA+ determinism spec + TLC trace validation of repeated in-process and cross-process compilations (index-addressed universe)",
+      "An order dependence that shows with probability p per run escapes an input of the first universe with probability about (1-p)^8, an input of the seed "
+      "universe with (1-p)^N, N = 256/512 (p = 0.78 %: 13 % / 1.8 % per input, < 1e-10 per family). On-disk projects go through "
+      "sylt::compile_with_reader_to_writer + sylt::read_file in a child process (not the binary's argument parsing). Negative controls: free-environment, "
+      "cache, counter and spelling spec models; recorders that salt one run (all five trace kinds).",
+      "TLA+ determinism spec with explicit process history and configuration + TLC trace validation of repeated, history-dependent, long-running, "
+      "differently-spelled and re-seeded compilations (index-addressed universes)",
       "DESIGN.md 5.11, 8/C16; docs/C16.md")
